@@ -198,11 +198,13 @@ type c09RandIn struct {
 	// many octets per Read (short reads without error, allowed by the io.Reader contract)
 	FailOnce bool `json:"fail_once,omitempty"`
 	MaxRead  int  `json:"max_read,omitempty"`
+	// ErrKind selects the error value the failing source returns (probe.InjectedErrors: plain, EAGAIN, EINTR, EOF, ...)
+	ErrKind int `json:"error_kind,omitempty"`
 }
 
 // inject runs f with the failing random source the input describes (failure at a Read call, or after a byte budget).
 func (in c09RandIn) inject(f func(en *probe.Entropy)) {
-	probe.WithEntropyOpts(probe.EntropyOpts{Stream: in.Stream, FailAt: in.FailAt, FailOnce: in.FailOnce, Budget: in.Budget, MaxRead: in.MaxRead}, f)
+	probe.WithEntropyOpts(probe.EntropyOpts{Stream: in.Stream, FailAt: in.FailAt, FailOnce: in.FailOnce, Budget: in.Budget, MaxRead: in.MaxRead, ErrKind: in.ErrKind}, f)
 }
 
 var c09Random = probe.Define("C09", "exponents", func(t *rapid.T) c09RandIn {
@@ -214,7 +216,7 @@ var c09Random = probe.Define("C09", "exponents", func(t *rapid.T) c09RandIn {
 	case 1:
 		in.Mode = "skip-small"
 		// first candidate(s) <= 2^128: zero or tiny 256-octet chunks, then drawn octets
-		k := rapid.IntRange(1, 3).Draw(t, "nsmall")
+		k := rapid.SampledFrom([]int{1, 2, 3, 3, 9, 10, 11, 20, 40}).Draw(t, "nsmall")
 		for i := 0; i < k; i++ {
 			chunk := make([]byte, 256)
 			tail := rapid.SliceOfN(rapid.Byte(), 0, 16).Draw(t, "small")
@@ -234,6 +236,7 @@ var c09Random = probe.Define("C09", "exponents", func(t *rapid.T) c09RandIn {
 		in.Stream = append(in.Stream, gen.Fill(t, "stream", 32)...)
 		in.FailAt = rapid.IntRange(1, 4).Draw(t, "failat")
 		in.FailOnce = rapid.Bool().Draw(t, "failonce")
+		in.ErrKind = rapid.IntRange(0, len(probe.InjectedErrors)-1).Draw(t, "errkind")
 		if rapid.Bool().Draw(t, "bytebudget") {
 			in.FailAt, in.FailOnce, in.Budget = 0, false, rapid.IntRange(1, 800).Draw(t, "budget")
 		}
@@ -401,6 +404,26 @@ func TestC09(t *testing.T) {
 				top, new(big.Int).Sub(top, big.NewInt(1)), other, new(big.Int).Sub(other, big.NewInt(1)), new(big.Int).Add(other, big.NewInt(1))} {
 				c09Table.Eval(c, c09In{Group: g, X: x.Bytes(), X2: big.NewInt(77).Bytes(), Y: new(big.Int).Add(P, big.NewInt(5)).Bytes()})
 			}
+			// exponents that are multiples of the group order p-1 (longer than the modulus for group 2) against peer values that
+			// are multiples of p (0, p, 2p, 3p: the only values for which reducing the exponent modulo p-1 changes the result)
+			pm1 := new(big.Int).Sub(P, big.NewInt(1))
+			for _, k := range []int64{1, 2, 3, 7} {
+				x := new(big.Int).Mul(pm1, big.NewInt(k))
+				if x.BitLen() > 2048 {
+					continue
+				}
+				for _, m := range []int64{0, 1, 2, 3} {
+					c09Table.Eval(c, c09In{Group: g, X: x.Bytes(), X2: new(big.Int).Add(x, big.NewInt(1)).Bytes(), Y: new(big.Int).Mul(P, big.NewInt(m)).Bytes()})
+				}
+			}
+			if g == 0 {
+				// group 2: the largest multiple of p-1 below 2^2048
+				x := new(big.Int).Lsh(big.NewInt(1), 2048)
+				x.Sub(x, big.NewInt(1))
+				x.Sub(x, new(big.Int).Mod(x, pm1))
+				c09Table.Eval(c, c09In{Group: g, X: x.Bytes(), X2: big.NewInt(2).Bytes(), Y: new(big.Int).Set(P).Bytes()})
+				c09Table.Eval(c, c09In{Group: g, X: x.Bytes(), X2: big.NewInt(2).Bytes(), Y: []byte{0}})
+			}
 		}
 		// fault enumeration: every read of the fault-free run, both groups
 		for g := 0; g < 2; g++ {
@@ -410,6 +433,9 @@ func TestC09(t *testing.T) {
 				c09Random.Eval(c, c09RandIn{Group: g, Mode: "fault", Stream: make(model.Bytes, 256), FailAt: k})
 				c09Random.Eval(c, c09RandIn{Group: g, Mode: "fault", Stream: make(model.Bytes, 256), FailAt: k, FailOnce: true})
 				c09Random.Eval(c, c09RandIn{Group: g, Mode: "fault", Stream: make(model.Bytes, 512), FailAt: k, FailOnce: true, MaxRead: 100})
+				for kind := 1; kind < len(probe.InjectedErrors); kind++ {
+					c09Random.Eval(c, c09RandIn{Group: g, Mode: "fault", Stream: model.Bytes{1, 2, 3}, FailAt: k, FailOnce: kind%2 == 1, ErrKind: kind})
+				}
 			}
 			for _, b := range []int{1, 2, 16, 128, 255} {
 				c09Random.Eval(c, c09RandIn{Group: g, Mode: "fault", Stream: model.Bytes{9, 9}, Budget: b})
